@@ -1,6 +1,8 @@
 import XalanModel.C03.StatusProofs
 import XalanModel.C03.BuffersProofs
 import XalanModel.C03.LoopsProofs
+import XalanModel.C03.Structure
+import XalanModel.C03.GuardProofs
 /-!
 # C03 — no input crashes, hangs or corrupts memory; every failure is a reported error
 
@@ -21,7 +23,7 @@ replayed on the real library by `checks/c03.py` (known findings).  The rest of t
 (sanitizer build + malformed inputs), not proved — see `design/C03.md`.
 -/
 namespace XalanModel.Props.C03
-open XalanModel.C03 XalanModel.Generated.C03_Exceptions XalanModel.Generated.C03_Buffers
+open XalanModel.C03 XalanModel.Generated.C03_Exceptions XalanModel.Generated.C03_Buffers XalanModel.Generated.C03_Structure
 
 /-! ## (a) error mapping -/
 
@@ -487,5 +489,73 @@ theorem float_casts_defined_iff_guarded :
 
 example : IsDouble ⟨false, 7, false⟩ ∧ predicateCastOperands true ⟨false, 2, true⟩ 3 = [⟨false, 2, true⟩] := by
   refine ⟨⟨by intro _; decide, by decide +kernel⟩, by decide⟩
+
+/-! ## (d) where an element may stand -/
+
+/-- **No element token falls through the stylesheet handler.**  For every token of `eElementToken`, both inside a template
+    (`StylesheetHandler::startElement`) and at the top level (`processTopLevelElement`) the case group that handles it ends in
+    `break;` and creates an element, processes the declaration, or reports an error (unknown tokens: error, or a
+    forward-compatible element when the stylesheet declares a later version).  `decide` over the regenerated tables. -/
+theorem structure_no_fall_through :
+    ∀ t : Tok, actDecided (inTemplateAction t) = true ∧ actDecided (topLevelAction t) = true := by
+  intro t
+  cases t <;> decide
+
+/-- **A context-dependent element is refused everywhere but under its parents** (full strength after
+    `proposed/C03-with-param-placement.diff`).  For every parent token and each of `xsl:with-param`, `xsl:sort`, `xsl:when`,
+    `xsl:otherwise`: if the parent is not one the XSLT 1.0 content model names, then either `childTypeAllowed` of the parent's
+    class refuses the child (→ "is not allowed in this position") or the handler tests the parent itself.  Before the repair the
+    base class accepted `xsl:with-param` anywhere: `<out><xsl:with-param name="p"/></out>` compiled, and executing it pushed a
+    parameter onto a parameter-frame stack that has no frame (SIGSEGV; 14 parent kinds found by the structural stream). -/
+theorem context_dependent_children_rejected_elsewhere :
+    ∀ p c : Tok, ∀ ps, requiredParents c = some ps → p ∉ ps → rejectedSomewhere p c = true := by
+  intro p c
+  cases c <;> simp only [requiredParents, Option.some.injEq, reduceCtorEq, false_implies, implies_true, forall_eq'] <;>
+    cases p <;> decide
+
+example : requiredParents .x_with_param = some [.x_apply_templates, .x_call_template] ∧
+    childAllowed .x_call_template .x_with_param = true ∧ childAllowed .x_text_literal_result .x_with_param = false := by decide
+
+/-! ## (e) the recursion guard of lazily evaluated top-level variables -/
+
+/-- **Every evaluation of a top-level variable ends — in a value or in `CircularVariableDefWasDetected` — for every dependency
+    graph.**  `deps` is arbitrary (any number of variables, any references between them: cycles of every length, through selects,
+    bodies, parameters' defaults, predicates, sort keys …).  With the guard test the regenerated flag says the code has — a search
+    of the *whole* guard stack — the nesting depth of evaluations never exceeds the number of variables (the guard stack stays
+    duplicate-free; pigeonhole), so `N + 1` levels always suffice: no C++ stack overflow. -/
+theorem guard_stack_every_cycle_detected (deps : Nat → List Nat) (N : Nat) (hd : ∀ u, ∀ d ∈ deps u, d < N) (v : Nat) (hv : v < N) :
+    evalVar guardSearchesWholeStack deps (N + 1) [] v ≠ .outOfFuel := by
+  have hg : guardSearchesWholeStack = true := rfl
+  rw [hg]
+  exact evalVar_whole_ne_outOfFuel deps N hd (N + 1) [] v hv List.nodup_nil (by simp) (by simp)
+
+/-- … and it is detected at the first repeated element: a variable that is on the guard stack — anywhere — is reported at once -/
+theorem guard_stack_reports_first_repetition (deps : Nat → List Nat) (fuel : Nat) (guard : List Nat) (v : Nat) (h : v ∈ guard) :
+    evalVar true deps (fuel + 1) guard v = .circular v := by
+  simp [evalVar, onGuard, h]
+
+example : evalVar true (fun v => [(v + 1) % 3]) 4 [] 0 = .circular 0 ∧
+    evalVar true (fun v => if v = 0 then [1, 2] else if v = 1 then [2] else []) 4 [] 0 = .value := by decide
+
+/-- comparing only with the top of the guard stack (`m_guardStack.back() == var`) still reports a self-reference, but a cycle
+    through two variables a → b → a is never seen — the evaluations nest without end (C++ stack overflow), whatever the fuel -/
+theorem guard_top_only_counterexample :
+    (∀ fuel, evalVar false (fun v => [1 - v]) fuel [] 0 = .outOfFuel) ∧
+    evalVar false (fun _ => [0]) 3 [] 0 = .circular 0 := by
+  constructor
+  · have gen : ∀ fuel (guard : List Nat) (v : Nat), v ≤ 1 → guard.head? ≠ some v →
+        evalVar false (fun v => [1 - v]) fuel guard v = .outOfFuel := by
+      intro fuel
+      induction fuel with
+      | zero => intro guard v _ _; rfl
+      | succ f ih =>
+        intro guard v hv hh
+        simp only [evalVar, onGuard, Bool.false_eq_true, if_false]
+        have : (guard.head? == some v) = false := by simpa using hh
+        simp only [this, Bool.false_eq_true, if_false, List.foldl_cons, List.foldl_nil]
+        exact ih (v :: guard) (1 - v) (by omega) (by simp; omega)
+    intro fuel
+    exact gen fuel [] 0 (by omega) (by simp)
+  · decide
 
 end XalanModel.Props.C03
